@@ -1151,7 +1151,7 @@ type CombinedSetFieldLengthError struct {
 }
 
 func NewCombinedSetFieldLengthError(selectEntity parser.QueryExpression, fieldLen int) error {
-	selectClause := searchSelectClauseInSelectEntity(selectEntity)
+	selectClause := searchSelectClauseInSelectSetEntity(selectEntity)
 
 	return &CombinedSetFieldLengthError{
 		NewBaseError(selectClause, fmt.Sprintf(ErrMsgCombinedSetFieldLength, FormatCount(fieldLen, "field")), ReturnCodeApplicationError, ErrorCombinedSetFieldLength),
@@ -1163,7 +1163,7 @@ type RecursionExceededLimitError struct {
 }
 
 func NewRecursionExceededLimitError(selectEntity parser.QueryExpression, limit int64) error {
-	selectClause := searchSelectClauseInSelectEntity(selectEntity)
+	selectClause := searchSelectClauseInSelectSetEntity(selectEntity)
 
 	return &RecursionExceededLimitError{
 		NewBaseError(selectClause, fmt.Sprintf(ErrMsgRecursionExceededLimit, limit), ReturnCodeApplicationError, ErrorRecursionExceededLimit),
